@@ -214,8 +214,8 @@ def jobs(prop, tier):
         if q:
             return [E("list_tx_edge", "list", 2, rate=0.3), E("list_txb_edge", "list", 2, rate=0.12), E("map_tx_edge", "map", 2, rate=0.3),
                     E("counter_tx_edge", "counter", 2, rate=0.3), S("list_tx_sim", "list", 3, 60, 40), S("map_tx_sim", "map", 3, 60, 40), S("counter_tx_sim", "counter", 3, 30, 40),
-                    E("doc_tx_edge", "doc", 2, rate=0.3), S("doc_tx_sim", "doc", 3, 40, 40), BIG(1)]
-        return [BIG(2), M("list_tx_mc", "list"), E("list_tx_edge", "list", 2), E("list_txb_edge", "list", 2), E("map_tx_edge", "map", 2),
+                    E("doc_tx_edge", "doc", 2, rate=0.3), S("doc_tx_sim", "doc", 3, 40, 40), BIG(1)] + traces(tier)
+        return traces(tier) + [BIG(2), M("list_tx_mc", "list"), E("list_tx_edge", "list", 2), E("list_txb_edge", "list", 2), E("map_tx_edge", "map", 2),
                 E("map_txb_edge", "map", 2), E("counter_tx_edge", "counter", 2), S("list_tx_sim", "list", 3, 500, 50),
                 S("map_tx_sim", "map", 3, 500, 50), S("counter_tx_sim", "counter", 3, 300, 50),
                 E("doc_tx_edge", "doc", 2), S("doc_tx_sim", "doc", 3, 500, 50)]
